@@ -25,16 +25,34 @@ def mc_configs(tier):
            [dict(MC_BASE, MaxOps=4, WalN=2, MaxCrashes=2, NK=3, PutContents='{"A", "B", "E"}', Ranges=("<-", "AllRanges"))]
 
 
-def run_mc(tier, invariants, extra_consts=None, workers=8):
+POWER_BASE = {"NK": 2, "SplitBigRecords": "FALSE", "SyncStaged": "TRUE", "MaxOps": 3, "MaxCrashes": 1, "WalN": 2, "PutContents": '{"A", "B"}'}
+FAULT_BASE = {"NK": 2, "SplitBigRecords": "FALSE", "MaxOps": 3, "MaxFaults": 1, "WalN": 2, "PutContents": '{"A", "B"}'}
+DAMAGE_BASE = {"NK": 2, "SplitBigRecords": "FALSE", "MaxOps": 3, "MaxCrashes": 1, "WalN": 2, "PutContents": '{"A", "B"}'}
+
+# property -> (module, configs per tier, invariants) where the base model is extended by an environment
+SPECIAL_MC = {
+    "C09": ("MCPower", {"quick": [dict(POWER_BASE), dict(POWER_BASE, WalN=1, MaxOps=2)],
+                        "thorough": [dict(POWER_BASE, MaxOps=4, WalN=n, MaxCrashes=2) for n in (1, 2, 3)]},
+            ["Inv_C09", "Inv_C03", "Inv_OpenOk"]),
+}
+
+
+def run_mc(tier, invariants, extra_consts=None, workers=8, prop=None):
     tot = {"states": 0, "distinct": 0, "violated": [], "configs": []}
-    for c in mc_configs(tier):
+    module = "MCSteps"
+    configs = mc_configs(tier)
+    if prop in SPECIAL_MC:
+        module, per_tier, invariants = SPECIAL_MC[prop]
+        configs = per_tier[tier]
+    tot["module"] = module
+    for c in configs:
         c = dict(c)
         if extra_consts:
             c.update(extra_consts)
-        out = tlc("MCSteps", cfg_text(c, invariants=invariants), workers=workers, timeout=2400, heap="12g", name="mc")
+        out = tlc(module, cfg_text(c, invariants=invariants), workers=workers, timeout=2400, heap="12g", name="mc")
         r = parse_mc(out)
         if r["error"] or not r["finished"]:
-            raise ToolError("MCSteps failed: " + str(r["error"]) + out[-2000:])
+            raise ToolError(module + " failed: " + str(r["error"]) + out[-2000:])
         tot["states"] += r["distinct"]
         tot["transitions"] = tot.get("transitions", 0) + r["states"]
         tot["violated"] += r["violated"]
@@ -144,7 +162,8 @@ def match_known(prop, tag, line, scen, known):
             if line and line.get("ev") == "plant" and any(p.get("kind") in ("upper", "split") for p in line.get("plants", [])):
                 return k
         if kind == "damage_in_older_segment":
-            if line and line.get("ev") == "dmg" and line.get("_older"):
+            # only a CUT (truncation) of an older segment is the known finding; an altered byte there must be rejected
+            if line and line.get("ev") == "dmg" and line.get("_older") and line.get("kind") == "cut":
                 return k
         if kind == "tag_prefix" and tag.startswith(sig.get("prefix", "\0")) and sig.get("mode") == scen["env"].get("mode"):
             return k
@@ -269,11 +288,11 @@ def run_seq_check(prop, tier, replay=None):
     known = load_known()
     # 1. the design: exhaustive model check of the fine-grained specification
     if replay:
-        mc = {"states": 0, "transitions": 0, "violated": [], "configs": []}
+        mc = {"states": 0, "transitions": 0, "violated": [], "configs": [], "module": "-"}
         scen = [json.load(open(replay))]
     else:
-        mc = run_mc(tier, PROP_INV[prop])
-        log(f"[{prop}] MCSteps: {mc['states']} distinct states, violated={mc['violated']}")
+        mc = run_mc(tier, PROP_INV[prop], prop=prop)
+        log(f"[{prop}] {mc['module']}: {mc['states']} distinct states, violated={mc['violated']}")
         scen = build_scenarios(prop, tier, rnd)
     need_shim = any(s["env"]["mode"] in ("crash", "power", "fault") or s["env"].get("crash") for s in scen)
     log(f"[{prop}] {len(scen)} scenarios")
@@ -328,7 +347,7 @@ def run_seq_check(prop, tier, replay=None):
     cov = {"states": max(1, mc["states"]), "transitions": max(1, mc.get("transitions", 0)),
            "traces_validated_against_impl": matched, "samples": samples,
            "scenarios": len(scen), "trace_lines_checked": st["lines"], "drift_lines": drift,
-           "model_configs": mc["configs"], "model_invariants": PROP_INV[prop], "model_invariants_violated": mc["violated"],
+           "model_module": mc.get("module", "MCSteps"), "model_configs": mc["configs"], "model_invariants": SPECIAL_MC[prop][2] if prop in SPECIAL_MC else PROP_INV[prop], "model_invariants_violated": mc["violated"],
            "known_findings_hit": sorted(knowns), "exhaustive": False,
            "harness_s": round(t2 - t1, 1), "validation_s": round(t3 - t2, 1)}
     write_evidence(prop, tier, "model_checking", cov, time.time() - t0, nviol,
